@@ -66,7 +66,11 @@ class C19(Prop):
                   "over the BufList::take_chunk(limit) model); for every session id, acceptance pattern of the transport and sequence "
                   "of write calls (poll_send, futures/tokio poll_write, send_data+poll_ready, poll_finish/close/shutdown, reset) the "
                   "wire of an opened uni/bidi stream is header(sid) ++ the bytes handed over, in order (a prefix while a call waits), "
-                  "it decodes to that sid with exactly those bytes behind it, and read back by the peer model it yields them again")
+                  "it decodes to that sid with exactly those bytes behind it, and read back by the peer model it yields them again; "
+                  "for ANY interleaving of arriving uni streams (any stream ids, session ids, payloads, cuttings) and accept_uni calls "
+                  "the entries surfaced plus those still buffered in wt_uni_streams are a PERMUTATION of the arrived (stream, session "
+                  "id in its header, its payload) triples - none twice, none lost, none with another stream's id or bytes - and "
+                  "accept_uni waits only when nothing is buffered (model: pending_recv_streams pass + Vec push/pop)")
     level_note = ("trusted: Lean kernel + 3 axioms; models tied by real h3-webtransport WebTransportSession over SimQuic "
                   "(accept, session_id, open_bi/open_uni, accept_bi/accept_uni, BidiStream::split, stream reads through poll_data and "
                   "through both AsyncRead impls with caller-chosen buffer sizes, writes through poll_send, both AsyncWrite impls and "
@@ -80,9 +84,22 @@ class C19(Prop):
             "… larger than any chunk (cycling lists), data/FIN/RESET arriving before the accept, before the read or while it waits; "
             "writes on opened and accepted streams: slices and DATA frames of 0…70 bytes, credit unlimited / 0,1,2,5 then grants of "
             "1…50 bytes, left short, or STOP_SENDING while waiting; the stream header itself under initial credit 0…5; datagrams "
-            "for the session, for other ids, truncated / too large quarter ids; non-trivial = a session was accepted")
+            "for the session, for other ids, truncated / too large quarter ids; 2-4 uni streams (and 0-2 bidi streams) "
+            "outstanding together before the first accept (distinct marked payloads, own / foreign session ids in every varint "
+            "form, headers complete or not at the accept, FIN / RESET / left open, some opened before the session exists, "
+            "accepts and reads interleaved with late data, one accept too few / too many); a stream abandoned inside its header "
+            "at every offset (0 = nothing at all) x uni/bidi x FIN/RESET x before the accept / while it waits, followed by a "
+            "complete stream and further accepts of both kinds; non-trivial = a session was accepted")
     trusted = []
-    assumptions = ["one WebTransport uni stream pending at a time (accept_uni pops the most recent)",
+    assumptions = ["the ORDER in which buffered uni streams are surfaced is the implementation's choice (the code pops the one pushed "
+                   "last; the model does the same, the specification accepts any order): the judge (engine wtj) lets each accept_uni "
+                   "surface the stream the implementation names if that is a buffered WebTransport stream with a complete header, "
+                   "not surfaced before, and demands ITS session id and, in the reads, ITS payload",
+                   "bidirectional streams are handed to accept_bi by the transport in the order opened (SimQuic; h3 does not buffer them)",
+                   "a stream that ends inside its WebTransport header: uni = never surfaced; bidi = accept_bi answers an error or None, "
+                   "never a stream; after an accept answered a connection error every later accept answers an error; whether and with "
+                   "which code the connection is then closed is C04's / C06's subject (the closed=[..] token may be absent)",
+                   "requests and non-WebTransport frames that come in through accept_bi are C03's subject (not generated here)",
                    "transport chunks are non-empty and FIN / RESET are sticky (SimQuic; R-T)",
                    "a datagram error surfaces as a connection close at the next accept_bi / accept_uni of the session"]
 
